@@ -112,16 +112,30 @@ def DState.init : DState := { c := Cluster.init 0 false, g := GCluster.init 0 fa
 def showReason : Option Reason → String
   | none => "ok"
   | some .nonReplicatedWriter => "non-replicated-writer"
-  | some .setExpiryNotRecorded => "set-expiry-not-recorded"
-  | some .modifyKeepsTtl => "modify-keeps-ttl"
-  | some .hashOverNonHash => "hash-over-non-hash"
   | some .badDelta => "bad-delta"
   | some .expiryRange => "expiry-range"
-  | some .multiKeyDel => "multi-key-del"
 
-def showDelta : Option Delta → String
-  | none => "none"
-  | some d => s!"{showKey d.1} {showRV d.2}"
+def showDelta : List Delta → String
+  | [] => "none"
+  | ds => " ; ".intercalate (ds.map (fun d => s!"{showKey d.1} {showRV d.2}"))
+
+def replyInt : Redis.Reply → Int
+  | .int i => i
+  | _ => 0
+
+/-- the adopted successor of one shard command: the implementation's executor keyspace, and the
+    recorder run on THAT keyspace (so that an executor conformance defect — C01 — that the
+    recorder reads, e.g. GETSET keeping the deadline, is reported once and does not cascade) -/
+def adoptOne (g : GCluster) (i : Nat) (nd : Node) (c : Redis.Cmd) (r : Redis.Reply) (impl : Redis.State) : GCluster :=
+  if applied c r then
+    let q := record nd.rs impl c
+    match q.2 with
+    | some d =>
+      { nodes := g.nodes.set i { exec := impl, rs := q.1 }
+        sent := g.sent ++ [⟨i, d.1, d.2⟩]
+        log := g.log ++ [⟨i, d.1, d.2⟩] }
+    | none => { g with nodes := g.nodes.set i { exec := impl, rs := q.1 } }
+  else { g with nodes := g.nodes.set i { exec := impl, rs := nd.rs } }
 
 def showSnap (s : Shard) : String :=
   " ".intercalate (toString s.keys.length :: s.keys.map (fun p => s!"{showKey p.1} {showRV p.2} ;"))
@@ -169,10 +183,23 @@ def gstep (g : GCluster) (line : String) : GCluster × String :=
       match g.nodes[i]? with
       | some nd =>
         let sup := gunsupported g (.client i c)
-        let r := nd.client c
-        let g' := g.step (.client i c)
-        (adopt g' i impl,
-          s!"{C01.showReply (C01.canonReply c r.2.1)} | {C01.showDump r.1.exec 0} | sup={showReason sup} delta={showDelta r.2.2}")
+        let subs := splitCmd c
+        -- the model's own run of the (possibly split) command
+        let acc := subs.foldl (fun (acc : GCluster × List Redis.Reply × List Delta) c' =>
+          match acc.1.nodes[i]? with
+          | some nd' =>
+            let r := nd'.client c'
+            (acc.1.clientOne i c', acc.2.1 ++ [r.2.1], acc.2.2 ++ r.2.2.toList)
+          | none => acc) (g, [], [])
+        let reply : Redis.Reply := match acc.2.1 with
+          | [r] => r
+          | rs => .int (rs.foldl (fun a r => a + replyInt r) 0)
+        let dumpM := match acc.1.nodes[i]? with | some nd' => C01.showDump nd'.exec 0 | none => "?"
+        let next := match subs with
+          | [c1] => adoptOne g i nd c1 reply impl
+          | _ => adopt acc.1 i impl
+        (next,
+          s!"{C01.showReply (C01.canonReply c reply)} | {dumpM} | sup={showReason sup} delta={showDelta acc.2.2}")
       | none => (g, "bad-op")
     | none => (g, "bad-op")
   | "GV" :: _ =>
